@@ -1,14 +1,14 @@
 PROPS["C10"] = dict(
     families=["meta"],
     label="full for get_changes over the model (specification theorem + equivalence of the code's sequence-clock computation "
-          "under per-actor chains, REFUTED without them: known finding); spec-level for byte identity (checked on the implementation)",
+          "in every reachable state); spec-level for byte identity (checked on the implementation)",
     level_text="Theorems: get_changes(have) of the model is exactly the applied changes that are not ancestors of have, none "
                "twice, each after those of its dependencies that are returned (a dependency that is not returned is an ancestor of "
                "have), for every applied list built by deliveries and commits (C10_get_changes_spec, C10_built_reachable); what "
                "the code computes instead (a per-actor sequence clock, mirror of get_build_indexes) equals the specification "
-               "whenever each actor's changes form a chain under the ancestor relation (C10_get_changes_impl_eq_spec) and does NOT "
-               "in a state the library itself can reach (C10_get_changes_impl_refuted: change, empty change, transaction isolated "
-               "at the first change, one actor) - reported as KNOWN-FINDING, the implementation reproduces it. Byte identity and "
+               "whenever each actor's changes form a chain under the ancestor relation (C10_get_changes_impl_eq_spec), which is an "
+               "invariant of every state reached by commits (plain, empty, isolated) and deliveries of chain-continuing changes "
+               "(C10_get_changes_impl_reachable; before the repair fd4a60d8b an isolated commit after an empty change broke it). Byte identity and "
                "hash = SHA-256(chunk) cannot be exhibited by a model that stores changes verbatim: they are checked on the "
                "implementation: every change returned by get_changes(&[]), get_changes(have), get_change_by_hash, "
                "get_last_local_change, get_changes_added and the fields of get_changes_meta, after every merge, fork, partial "
